@@ -356,6 +356,7 @@ type Enc struct {
 	boxDecls      map[string]string // box function name -> argument sort
 	clauseSeen    map[string]bool   // iteration / exit clauses: evaluated on at least one path?
 	defaultExterns map[string]bool  // library functions used through the default assumed contract
+	usedSend       bool
 }
 
 type modRef struct {
